@@ -28,7 +28,7 @@ func init() {
 			"LIKE patterns contain no backslash; non-ASCII characters in data are caseless, so ASCII folding is the case-insensitivity asserted",
 			"numeric literals are rendered without exponent; the reference model (internal/ref) is trusted",
 		},
-		Floor:         featList("op.eq", "op.ne", "op.lt", "op.le", "op.gt", "op.ge", "and", "or", "not", "in", "notin", "in.subquery", "between", "notbetween", "like", "notlike", "isnull", "isnotnull", "istrue", "isfalse", "law.partition", "law.notin", "law.between", "native-int", "in.subquery.correlated", "naming.alias", "naming.alias-unqualified", "naming.table-qualified", "const.spelled", "opt.idiomatic-arrays", "source.dual", "table.long", "reexec.vars", "reexec.document", "column.nonword", "in.subquery.topn", "const.int64-edge"),
+		Floor:         featList("op.eq", "op.ne", "op.lt", "op.le", "op.gt", "op.ge", "and", "or", "not", "in", "notin", "in.subquery", "between", "notbetween", "like", "notlike", "isnull", "isnotnull", "istrue", "isfalse", "law.partition", "law.notin", "law.between", "native-int", "in.subquery.correlated", "naming.alias", "naming.alias-unqualified", "naming.table-qualified", "const.spelled", "opt.idiomatic-arrays", "source.dual", "table.long", "reexec.vars", "reexec.document", "column.nonword", "in.subquery.topn", "const.int64-edge", "opt.pg", "naming.table-qualified.path"),
 		MinNontrivial: 50,
 		Phases: []fw.Phase{
 			{Name: "pred", N: func(t fw.Tier) int { return pick(t, 16000, 600000) }, Run: c01Pred},
@@ -101,11 +101,22 @@ func c01Render(c *fw.Case, p gen.Pred, alias string, numText ...map[float64]stri
 	return gen.RenderPred(p, ro), feats
 }
 
+// c01RenderPG: the spelling PostgresEscapingDialect calls for - double-quoted
+// identifiers; string constants keep their quotes of every kind, a quote of the
+// constant written with a backslash.
+func c01RenderPG(c *fw.Case, p gen.Pred, alias string, numText map[float64]string) (string, []string) {
+	var feats []string
+	ro := gen.RenderOpts{Quote: gen.QDouble, StrStyle: 1, MinParens: c.Chance(0.3), Features: &feats, Qualifier: alias, NumText: numText}
+	return gen.RenderPred(p, ro), feats
+}
+
 // c01Spellings: numeric constants whose text is not what the number prints as.
 var c01Spellings = []struct {
 	text string
 	v    float64
-}{{"1.50", 1.5}, {"1000000", 1000000}, {"007", 7}, {"1e3", 1000}, {"2.0", 2}, {"0.50", 0.5}, {"10.00", 10}, {"12345678", 12345678}, {"1E2", 100}, {".5", 0.5}}
+}{{"1.50", 1.5}, {"1000000", 1000000}, {"007", 7}, {"1e3", 1000}, {"2.0", 2}, {"0.50", 0.5}, {"10.00", 10}, {"12345678", 12345678}, {"1E2", 100}, {".5", 0.5},
+	// a leading zero is a zero, not a base
+	{"010", 10}, {"0100", 100}, {"017", 17}, {"0755", 755}, {"00012", 12}}
 
 // c01Twin puts one statement's string constant and numeric constant under the
 // same spelling: s1 holds the text (and what the number prints as), n1 holds
@@ -170,6 +181,7 @@ func c01Pred(c *fw.Case) {
 	// how the columns are named: plainly; qualified by the table's alias;
 	// without the alias although the table has one; with the table's own name
 	naming := ""
+	pathMode := false
 	if g.Force == "" {
 		switch c.Intn(12) {
 		case 0, 1:
@@ -180,6 +192,11 @@ func c01Pred(c *fw.Case) {
 		case 3:
 			naming = "table-qualified"
 			g.Correlate = false
+			if c.Chance(0.5) {
+				// the table sits under a path (FROM db.t1): its name is the path's last part, or the whole path
+				pathMode = true
+				g.Disable = map[string]bool{"in.subquery": true}
+			}
 		}
 	}
 	if (c.Idx%50 == 41 || (g.Force == "" && naming == "" && c.Chance(0.03))) && len(t.Rows) > 0 {
@@ -203,8 +220,15 @@ func c01Pred(c *fw.Case) {
 		alias = "x"
 	case "table-qualified":
 		qualifier = "t1"
+		if pathMode && c.Chance(0.4) {
+			qualifier = "db.t1"
+		}
 	}
 	where, feats := c01Render(c, p, qualifier, numText)
+	pgOpt := g.Force == "" && (c.Idx%50 == 33 || c.Chance(0.05))
+	if pgOpt {
+		where, feats = c01RenderPG(c, p, qualifier, numText)
+	}
 	sql := "SELECT * FROM t1 WHERE " + where
 	if alias != "" {
 		sql = "SELECT * FROM t1 x WHERE " + where
@@ -228,9 +252,18 @@ func c01Pred(c *fw.Case) {
 		}
 	}
 	doc := DocOf(t, other)
+	if pathMode {
+		doc = map[string]any{"db": doc}
+		sql = strings.Replace(sql, " FROM t1 ", " FROM db.t1 ", 1)
+		feats = append(feats, "naming.table-qualified.path")
+	}
 	if c.Idx%7 == 3 || c.Chance(0.1) {
 		// one numeric column arrives as natively typed Go integers
-		nativize(c, doc["t1"].([]any), gen.Pick(c.R, []string{"n1", "n2"}))
+		rows, _ := doc["t1"].([]any)
+		if pathMode {
+			rows = doc["db"].(map[string]any)["t1"].([]any)
+		}
+		nativize(c, rows, gen.Pick(c.R, []string{"n1", "n2"}))
 		feats = append(feats, "native-int")
 		if strings.Contains(sql, "92233720368547") || strings.Contains(sql, "18446744073709551616") || strings.Contains(sql, "10000000000000000000") {
 			feats = append(feats, "const.int64-edge")
@@ -241,6 +274,11 @@ func c01Pred(c *fw.Case) {
 		// the array-literal rewrite leaves every constant as it is
 		opts = append(opts, genql.IdomaticArrays())
 		feats = append(feats, "opt.idiomatic-arrays")
+	}
+	if pgOpt {
+		// the identifier rewrite leaves every constant as it is
+		opts = append(opts, genql.PostgresEscapingDialect())
+		feats = append(feats, "opt.pg")
 	}
 	o := Run(doc, sql, opts...)
 	c.Feature(feats...)
